@@ -16,6 +16,8 @@ CONSTANTS
  DevNoAtomResname = TRUE
  DevOrderedPairs = FALSE
  DevGateOnce = FALSE
+ DevGateBuildOnly = FALSE
+ DevMissingCache = FALSE
  DevDegree = FALSE
 INVARIANT FinalIsExpected
 CHECK_DEADLOCK FALSE
